@@ -31,11 +31,15 @@ EXTENDED = {
     'C15-6': "_handle_emit clause: the acknowledgement is relayed to the host the message names",
     'C18-6': 'lookups in containers of the wrapped server may miss (KeyError of the wrapper itself)',
     'C20-5': 'gate g2: the mark is dropped only after the client left its rooms (statement order)',
+    'C03-7': "loops are found again by what they iterate over when a loop was added (expected/loop_sigs.json); the new loop borrows the invariant of the loop it copies",
+    'C10-7': "connect() clause 'reconnect-abort event left alone' (+ rely: packet handlers never touch that event)",
+    'C18-7': 'a new optional parameter the contract does not declare is bound to its default (or to the keyword argument of that name) instead of giving up',
 }
 try:
     FIRST = json.load(open(os.path.join(ROOT, 'seeded', 'vet_run_at_4528970.json')))
     FIRST = {k: v for k, v in FIRST.items() if int(k.split('-')[1]) <= 4}
     FIRST.update(json.load(open(os.path.join(ROOT, 'seeded', 'vet_round3_at_43fd6fd.json'))))
+    FIRST.update({k: dict(v, exit_codes=v['exit_codes']) for k, v in json.load(open(os.path.join(ROOT, 'seeded', 'vet_round4_at_9b9fbde.json'))).items()})
 except Exception:
     FIRST = {}
 rows = []
@@ -49,6 +53,11 @@ for f in sorted(glob.glob(os.path.join(ROOT, 'seeded', '*', 'meta.json'))):
                 title = re.sub(r'^#+\s*', '', l.strip())
                 title = re.sub(r'^C\d\d[^:—-]*[:—-]\s*', '', title)
                 break
+        if not title:
+            for l in open(os.path.join(d, 'notes.md')):
+                if l.strip():
+                    title = re.sub(r'[*`]', '', l.strip())
+                    break
     except OSError:
         pass
     viol = re.findall(r'replays/C\d\d/([^| ]+?)\.json', m.get('check_output', ''))
@@ -67,17 +76,18 @@ for f in sorted(glob.glob(os.path.join(ROOT, 'seeded', '*', 'meta.json'))):
     f0 = FIRST.get(m['id'])
     first_run = '' if f0 is None else ('caught' if f0['caught'] else 'missed (exit %s)' % ','.join(map(str, f0['exit_codes'])))
     rows.append((m['id'], title[:110], ' '.join(m.get('checks_run', [])), res, first, 'ported' if m.get('ported') else '', first_run, EXTENDED.get(m['id'], '')))
-print('| seed | change | check | first run (4528970; ids 5,6: 43fd6fd) | final | first failed obligation | extended after the seed was seen |')
+print('| seed | change | check | first run (4528970; ids 5,6: 43fd6fd; id 7: 9b9fbde) | final | first failed obligation | extended after the seed was seen |')
 print('|------|--------|-------|----------------------------|-------|-------------------------|----------------------------------|')
 for r in rows:
     print('| %s%s | %s | %s | %s | %s | `%s` | %s |' % (r[0], ' (ported)' if r[5] else '', r[1], r[2], r[6], r[3], r[4], r[7]))
 def rnd(r):
     return (int(r[0].split('-')[1]) - 1) // 2 + 1
-for k in (1, 2, 3):
+for k in (1, 2, 3, 4):
     rr = [r for r in rows if rnd(r) == k]
     if rr:
         print('\nround %d: %d of %d caught%s' % (k, sum(1 for r in rr if r[3].startswith('caught')), len(rr),
-                                                 '' if k < 3 else ' at the end (33 of 40 when first vetted, with the machinery exactly as committed at 43fd6fd)'))
+                                                 {1: '', 2: '', 3: ' at the end (33 of 40 when first vetted, with the machinery exactly as committed at 43fd6fd)',
+                                                  4: ' at the end (8 of 12 when first vetted, with the machinery exactly as committed at 9b9fbde)'}[k]))
 rows12 = [r for r in rows if rnd(r) < 3]
 n = sum(1 for r in rows if r[3].startswith('caught'))
 n0 = sum(1 for r in rows12 if r[6] == 'caught')
